@@ -121,6 +121,12 @@ def _mask(name, grid_layout=None, ref_grid=None, grid=None):
     return out
 
 
+# square 3x3 cell grid: asymmetric masks (not invariant under any transpose / flip)
+PHYS["A3"] = np.array([[True, True, False], [False, False, True], [False, False, False]])
+PHYS["B3"] = np.array([[False, True, False], [True, False, False], [False, False, True]])
+SPECS3 = ["FLEX", "NONE", "nomask", "A3", "B3"]
+
+
 def _physical(name):
     if name in ("nomask", "all-false"):
         return np.zeros((2, 3), bool)
@@ -130,14 +136,16 @@ def _physical(name):
 def h_accept(ctx):
     """connect-time mask rule through the real Output.get_info / Input.exchange_info / Info.accepts"""
     hlib.reset_finam_state()
-    prod = SPECS[ctx.choice("producer", len(SPECS))]
-    cons = SPECS[ctx.choice("consumer", len(SPECS))]
-    ref = fm.UniformGrid((3, 4))
+    dims = tuple(ctx.params.get("dims", (3, 4)))
+    specs = SPECS3 if dims == (4, 4) else SPECS
+    prod = specs[ctx.choice("producer", len(specs))]
+    cons = specs[ctx.choice("consumer", len(specs))]
+    ref = fm.UniformGrid(dims)
 
     def layout(tag):
         rev = ctx.flag(tag + "_rev")
         inc = [ctx.flag(f"{tag}_inc{i}") for i in range(2)]
-        return fm.UniformGrid((3, 4), axes_reversed=rev, axes_increase=inc)
+        return fm.UniformGrid(dims, axes_reversed=rev, axes_increase=inc)
 
     gp = layout("p")
     cons_grid_unset = ctx.flag("consumer_grid_unset")
@@ -154,6 +162,10 @@ def h_accept(ctx):
         res = "accepted"
     except FinamMetaDataError:
         res = "rejected"
+    except (symx.PathAbort, symx.SymbolicLeak, symx.HarnessError):
+        raise
+    except Exception as e:  # pylint: disable=broad-except
+        res = "error:" + type(e).__name__
     if cons == "FLEX":
         exp = "accepted"
     elif cons == "NONE":
@@ -201,4 +213,8 @@ def families(tier):
     fams.append(dict(name="accept:2x3", ref="vf.props.c18:h_accept", params={},
                      bounds="9 x 9 mask specifications, 8 layouts of the producer grid, 8 layouts of the consumer grid or "
                             "no consumer grid", must_cover=["accepted", "rejected"]))
+    fams.append(dict(name="accept:3x3", ref="vf.props.c18:h_accept", params={"dims": [4, 4]},
+                     bounds="square 3x3-cell grid (transposes keep the shape): 5 x 5 mask specifications with two masks "
+                            "that no transpose / flip maps onto themselves, 8 layouts of the producer grid, 8 layouts of the "
+                            "consumer grid or no consumer grid", must_cover=["accepted", "rejected"]))
     return fams
